@@ -11,12 +11,13 @@ CLAIMED = {
         "roundtrip_compact(_zip), accepted_altered_component_is_a_forgery (reduction of tamper rejection to the unforgeability of the primitive); for AES_CBC_HMAC_SHA2, which the "
         "library composes itself (HMAC native in Lean): cbc_accept_implies_tag_eq, cbc_wrong_tag_rejected (AES is never reached), cbc_tag_length_enforced (shortened / lengthened tag), "
         "mac_input_injective + al64_injective_length + cbc_tamper_reduces_to_mac_collision (an accepted altered aad / iv / ciphertext is an HMAC collision on DIFFERENT inputs); "
-        "fixedInfo_injective (Concat KDF other-info). Correspondence: CBC-HS tag and Concat KDF (other-info and derived key, SHA-256 native) against the real methods; the compact "
+        "fixedInfo_injective (Concat KDF other-info); general JSON serialization: json_accept_implies_authenticated, json_every_recipient_decrypts / json_recipient_gets_plaintext "
+        "(a recipient whose entry is intact is served whatever the foreign entries unwrap to), first_unwrapping_loop_loses_recipient (the pre-fix loop, counterexample), jsonAad_injective. Correspondence: CBC-HS tag and Concat KDF (other-info and derived key, SHA-256 native) against the real methods; the compact "
         "deserializer's structure against the model fed with the primitive verdicts of an independent RFC 7516 implementation, on valid and altered tokens for all 14 algs. Oracle: full "
         "14 × 6 × 2 round-trip matrix in three directions (authlib↔authlib, authlib→independent, independent→authlib) over 5 curves, general JSON serialization with 1..3 recipients and AAD, "
         "every component × bit flips / truncation / lengthening / splicing, header rewrites, non-recipient and wrong-size keys, a deterministic RSA1_5 multi-recipient witness.",
-   note="Trusted: Lean kernel; the `cryptography` primitives (both sides); harness/jweref.py as the independent implementation; JSON header parsing abstract in the model. The JSON serialization "
-        "is covered by oracle and interoperability, not by a Lean model. ECDH-1PU drafts and C20P/XC20P not exercised. Observation: in dir / ECDH-ES the encrypted-key segment is ignored.",
+   note="Trusted: Lean kernel; the `cryptography` primitives (both sides); harness/jweref.py as the independent implementation; JSON header parsing abstract in the model. The JSON "
+        "model starts after base64 / JSON decoding of the members. ECDH-1PU drafts and C20P/XC20P not exercised. Observation: in dir / ECDH-ES the encrypted-key segment is ignored.",
    technique="Lean 4 proof (structural theorems + reduction to primitive unforgeability / MAC collision) + differential correspondence with an independent implementation + tamper oracle",
    design="§5 C03"),
  "C20": dict(
